@@ -27,6 +27,8 @@ EXPLANATION = (
 TECHNIQUE += '; component-selection scan in volume()'
 EXPLANATION += ' R3 also requires volume() to use whole cell vectors only (no Cartesian component singled out: rotation invariance).'
 EXPLANATION += " R5 also rejects overwrite_a/overwrite_b=True on the caller's matrices and accepts the transposed (symmetric) overlap as metric."
+TECHNIQUE += '; evaluation of set_four_index_element and check_dm'
+EXPLANATION += ' R1 evaluates set_four_index_element for all 256 index tuples of a 4x4x4x4 symbolic array (exactly the symmetry orbit is written); R4 evaluates check_dm with stubbed natural occupations on 120 (eps, occ_max, min, max) combinations around both bounds.'
 TRUSTED = ["CPython ast parser", "scipy.linalg.eigh(a, b) solves a v = w b v and returns (w, v)", "np.linalg.norm and abs are non-negative"]
 
 DOC_TRUE = {"y", "yes", "t", "true", "on", "1"}
@@ -55,41 +57,8 @@ def run(ctx):
     ctx.clauses_declined = ["orthonormality / reconstruction / eigenvalue accuracy (numerical)", "volume values (numerical)"]
 
     # ------------------------------------------------------------------ R1
-    ctx.rule("R1", "set_four_index_element fills exactly the 8 symmetry-equivalent positions", "a missing/duplicated/wrong index tuple leaves a symmetry-equivalent element unset or overwrites a wrong one")
-    f = prog.func("iodata.utils.set_four_index_element")
-    if len(f.posparams) != 6:
-        raise AnalysisError("set_four_index_element no longer has 6 positional parameters")
-    arr, idx, val = f.posparams[0], f.posparams[1:5], f.posparams[5]
-    tuples = []
-    for st in f.body:
-        if isinstance(st, ast.Expr) and isinstance(st.value, ast.Constant):
-            continue
-        good = False
-        if isinstance(st, ast.Assign) and len(st.targets) == 1 and isinstance(st.targets[0], ast.Subscript):
-            t = st.targets[0]
-            if isinstance(t.value, ast.Name) and t.value.id == arr and isinstance(t.slice, ast.Tuple) and len(t.slice.elts) == 4:
-                names = [e.id if isinstance(e, ast.Name) else None for e in t.slice.elts]
-                if all(n in idx for n in names) and isinstance(st.value, ast.Name) and st.value.id == val:
-                    tuples.append((tuple(idx.index(n) for n in names), st))
-                    good = True
-        if not good:
-            if isinstance(st, (ast.If, ast.For, ast.While, ast.Try, ast.With)):
-                ctx.violate("R1", "symmetry-equivalent positions are assigned only conditionally (the fill must not depend on the index order)", f, st, construct=f"conditional: {type(st).__name__.lower()} {src_of(getattr(st, 'test', st))[:60]}")
-            else:
-                ctx.violate("R1", "statement other than `array[<4 index params>] = value` in set_four_index_element", f, st)
-    want = _orbit()
-    got = {t for t, _ in tuples}
-    for t, st in tuples:
-        if t in want:
-            ctx.ok("R1", f"assigns position {t} (in the orbit)", f"{f.module.relpath}:{st.lineno}")
-        else:
-            ctx.violate("R1", f"index tuple {t} is not symmetry-equivalent to (i0,i1,i2,i3)", f, st)
-    for t in sorted(want - got):
-        names = ", ".join(idx[k] for k in t)
-        ctx.violate("R1", f"symmetry-equivalent position [{names}] is never assigned", f, f.node, construct=f"missing [{names}]")
-    if len(tuples) != len(got):
-        ctx.note("set_four_index_element assigns one position more than once (harmless)")
-    ctx.floor("R1", len(tuples), 8, "index assignments")
+    ctx.rule("R1", "set_four_index_element fills exactly the 8 symmetry-equivalent positions", "a missing/duplicated/wrong index tuple leaves a symmetry-equivalent element unset or overwrites an unrelated one")
+    _check_four_index(ctx)
 
     # ------------------------------------------------------------------ R2
     ctx.rule("R2", "string-to-boolean vocabulary", "a missing/extra word changes which strings are accepted")
@@ -186,51 +155,10 @@ def run(ctx):
         ctx.ok("R3", "volume() uses whole cell vectors only (norm, cross, det): no Cartesian component is singled out", vf.where)
 
     # ------------------------------------------------------------------ R4
-    ctx.rule("R4", "check_dm tests both bounds with its parameters", "a one-sided or constant bound accepts out-of-range occupations")
+    ctx.rule("R4", "check_dm rejects occupations below -eps or above occ_max + eps, and nothing else", "an unphysical density matrix passes, or a valid one is rejected, at another threshold than requested")
+    _check_check_dm(ctx)
     cd = prog.func("iodata.utils.check_dm")
-    if "eps" not in cd.params or "occ_max" not in cd.params:
-        raise AnalysisError("check_dm lost its eps/occ_max parameters")
-    lower = upper = None
-    for st in walk_stmts(cd.body):
-        if isinstance(st, ast.If) and any(isinstance(s, ast.Raise) and raises_class(s) == "ValueError" for s in st.body):
-            t = st.test
-            if isinstance(t, ast.Compare) and len(t.ops) == 1:
-                lhs, op, rhs = t.left, t.ops[0], t.comparators[0]
-                if isinstance(op, (ast.Gt, ast.GtE)) and _has_call(rhs, ("min", "max")):
-                    lhs, rhs, op = rhs, lhs, (ast.Lt() if isinstance(op, ast.Gt) else ast.LtE())
-                elif isinstance(op, (ast.Lt, ast.LtE)) and _has_call(rhs, ("min", "max")) and not _has_call(lhs, ("min", "max")):
-                    lhs, rhs, op = rhs, lhs, (ast.Gt() if isinstance(op, ast.Lt) else ast.GtE())
-                if _has_call(lhs, ("min",)) and isinstance(op, (ast.Lt, ast.LtE)):
-                    if isinstance(rhs, ast.UnaryOp) and isinstance(rhs.op, ast.USub) and isinstance(rhs.operand, ast.Name) and rhs.operand.id == "eps":
-                        lower = st
-                if _has_call(lhs, ("max",)) and isinstance(op, (ast.Gt, ast.GtE)):
-                    if isinstance(rhs, ast.BinOp) and isinstance(rhs.op, ast.Add) and {x.id for x in (rhs.left, rhs.right) if isinstance(x, ast.Name)} == {"occ_max", "eps"}:
-                        upper = st
-    if lower is not None:
-        ctx.ok("R4", "min < -eps raises ValueError", f"{cd.module.relpath}:{lower.lineno}")
-    else:
-        ctx.violate("R4", "no `occupations.min() < -eps -> raise ValueError` test in check_dm", cd, cd.node, construct="lower bound test")
-    if upper is not None:
-        ctx.ok("R4", "max > occ_max + eps raises ValueError", f"{cd.module.relpath}:{upper.lineno}")
-    else:
-        ctx.violate("R4", "no `occupations.max() > occ_max + eps -> raise ValueError` test in check_dm", cd, cd.node, construct="upper bound test")
-    # the tested value comes from derive_naturals(dm, overlap)[1]
     dn = prog.func("iodata.utils.derive_naturals")
-    dcalls = [cs for cs in cd.calls if dn in cs.callees]
-    if len(dcalls) == 1 and [getattr(a, "id", None) for a in dcalls[0].node.args] == cd.posparams[:2]:
-        ctx.ok("R4", "occupations come from derive_naturals(dm, overlap)", cd.where)
-    else:
-        ctx.violate("R4", "check_dm does not call derive_naturals(dm, overlap) exactly once", cd, cd.node, construct="derive_naturals call")
-    for st in (lower, upper):
-        if st is None:
-            continue
-        for nm in names_in(st.test) - {"eps", "occ_max", "np"}:
-            d = deref(cd, ast.Name(id=nm, ctx=ast.Load()))
-            if not (isinstance(d, ast.Subscript) and isinstance(d.value, ast.Call) and any(d.value is cs.node for cs in dcalls) and isinstance(d.slice, ast.Constant) and d.slice.value == 1):
-                ctx.violate("R4", f"tested value `{nm}` is not derive_naturals(...)[1]", cd, st.test)
-    for n in cd.own_nodes():
-        if isinstance(n, ast.Try):
-            ctx.violate("R4", "try statement in check_dm (may swallow the ValueError)", cd, n, construct="try in check_dm")
 
     # ------------------------------------------------------------------ R5
     ctx.rule("R5", "derive_naturals solves the generalized eigenproblem with the overlap as metric", "eigh without the metric returns orbitals that are not S-orthonormal")
@@ -337,3 +265,93 @@ def _deep_names(func, expr, depth=4):
                 if not isinstance(dd, ast.Name):
                     todo.append((dd, d - 1))
     return out
+
+
+def _check_four_index(ctx):
+    """set_four_index_element evaluated for all 256 index tuples of a 4x4x4x4 symbolic array."""
+    import itertools
+
+    import numpy as np
+
+    from ..accessors import AccessorEval, Raised
+    from ..symarr import NotSymbolic, Sym
+
+    prog = ctx.prog
+    f = prog.func("iodata.utils.set_four_index_element")
+    bad = None
+    n = 0
+    try:
+        for idx in itertools.product(range(4), repeat=4):
+            arr = np.empty((4, 4, 4, 4), dtype=object)
+            arr.fill(Sym.const(0))
+            v = Sym.atom("v")
+            ev = AccessorEval(prog, None)
+            ev.module = f.module
+            try:
+                ev.run_free(f, [arr] + list(idx) + [v], {})
+            except Raised as exc:
+                bad = bad or (idx, f"raises {exc.cls}")
+                continue
+            got = {tuple(int(x) for x in pos) for pos in np.ndindex(4, 4, 4, 4) if Sym.const(arr[pos]).terms}
+            wrong = [pos for pos in got if not (Sym.const(arr[pos]) == v)]
+            i, j, k, l = idx
+            want = {(i, j, k, l), (j, i, l, k), (k, l, i, j), (l, k, j, i), (k, j, i, l), (l, i, j, k), (i, l, k, j), (j, k, l, i)}
+            n += 1
+            if got != want or wrong:
+                bad = bad or (idx, f"sets {sorted(got - want) or 'nothing extra'} beyond the orbit and misses {sorted(want - got) or 'nothing'}")
+    except NotSymbolic as exc:
+        raise AnalysisError(f"set_four_index_element is outside the evaluation whitelist: {exc}") from exc
+    if bad:
+        ctx.violate("R1", f"set_four_index_element(array, {', '.join(map(str, bad[0]))}, v) {bad[1]}; the physicists'-notation symmetry orbit has exactly the positions (ijkl),(jilk),(klij),(lkji),(kjil),(lijk),(ilkj),(jkli)", f, f.node, construct=f"four-index {bad[0]}: {bad[1]}"[:200])
+    else:
+        ctx.ok("R1", f"all {n} index tuples of a 4x4x4x4 symbolic array: exactly the symmetry orbit of (i,j,k,l) receives the value, nothing else is touched", f"{f.module.relpath}:{f.lineno}")
+
+
+def _check_check_dm(ctx):
+    """check_dm evaluated with stubbed natural occupations over a finite domain around both bounds."""
+    import numpy as np
+
+    from ..accessors import AccessorEval, Raised
+    from ..symarr import NotSymbolic
+
+    prog = ctx.prog
+    cd = prog.func("iodata.utils.check_dm")
+    dn = prog.func("iodata.utils.derive_naturals")
+    cases = []
+    for eps, occ_max in ((1e-4, 1.0), (1e-4, 2.0), (1e-2, 0.5), (1e-6, 2.0)):
+        for lo in (-3 * eps, -1.5 * eps, -0.5 * eps, 0.0, 0.3):
+            for hi in (occ_max - 0.1, occ_max, occ_max + 0.5 * eps, occ_max + 1.5 * eps, occ_max + 3 * eps, occ_max * (1 + 1.5 * eps) if occ_max != 1.0 else occ_max + 0.5 * eps):
+                cases.append((eps, occ_max, lo, hi))
+    bad = None
+    calls = []
+    try:
+        for eps, occ_max, lo, hi in cases:
+            occ = np.array([lo, 0.5 * occ_max, hi])
+
+            def stub(args, kw, occ=occ):
+                calls.append((args, kw))
+                return ("<coefficients>", occ)
+
+            ev = AccessorEval(prog, None)
+            ev.module = cd.module
+            ev.stubs = {dn.qualname: stub}
+            dm, ov = ("dm",), ("overlap",)
+            try:
+                ev.run_free(cd, [dm, ov], {"eps": eps, "occ_max": occ_max})
+                got = "accepted"
+            except Raised as exc:
+                got = exc.cls
+            want = "ValueError" if (lo < -eps or hi > occ_max + eps) else "accepted"
+            a, k = calls[-1] if calls else ((), {})
+            passed = (len(a) >= 2 and a[0] is dm and a[1] is ov) or (k.get("dm") is dm and k.get("overlap") is ov)
+            if got != want:
+                bad = bad or (eps, occ_max, lo, hi, got, want)
+            elif not passed:
+                bad = bad or (eps, occ_max, lo, hi, "derive_naturals is not called with (dm, overlap)", "")
+    except NotSymbolic as exc:
+        raise AnalysisError(f"check_dm is outside the evaluation whitelist: {exc}") from exc
+    if bad:
+        eps, occ_max, lo, hi, got, want = bad
+        ctx.violate("R4", f"check_dm(eps={eps}, occ_max={occ_max}) with natural occupations between {lo:g} and {hi:g}: {got}" + (f", expected {want} (reject exactly when min < -eps or max > occ_max + eps)" if want else ""), cd, cd.node, construct=f"check_dm eps={eps} occ_max={occ_max} lo={lo:g} hi={hi:g}: {got}")
+    else:
+        ctx.ok("R4", f"check_dm evaluated on {len(cases)} (eps, occ_max, smallest, largest occupation) combinations around both bounds: ValueError exactly when min < -eps or max > occ_max + eps; the occupations are those of derive_naturals(dm, overlap)", f"{cd.module.relpath}:{cd.lineno}")
